@@ -412,7 +412,7 @@ def run_case(desc, ctx):
                 _compare_pool(ctx, pool, shadows, "scale_xyz", "scale_xyz", j)
             elif kind in ("normalize", "fit"):
                 span = sh.V.max(axis=0) - sh.V.min(axis=0)
-                if not span.max() > 1e-6:
+                if not span.max() > 1e-6 * max(1e-300, float(np.abs(sh.V).max())):  # degenerate box only relative to the mesh's own size (tiny units are fine)
                     continue
                 centred = (kind == "normalize")
                 if centred:
